@@ -3,9 +3,10 @@ package gvc
 import (
 	"fmt"
 	"go/types"
+	"strings"
 )
 
-var zeroArr = &Term{S: "((as const (Array Int Int)) 0)", Sort: SArr}
+var zeroArr = ConstArr(IntLit(0))
 
 // ---------------------------------------------------------------- regions
 
@@ -69,8 +70,14 @@ func (u *Unit) regionOf(st *State, blk *Term) *Region {
 	if r := st.regions[blk.S]; r != nil {
 		return r
 	}
+	// contents: whatever region the block coincides with, else unknown memory
 	c := u.newArr("Cu")
-	r := &Region{Blk: blk, C: c}
+	r := &Region{Blk: blk}
+	type alt struct {
+		cond *Term
+		c    *Term
+	}
+	var alts []alt
 	for _, k := range st.order {
 		q := st.regions[k]
 		if q.Virt {
@@ -80,9 +87,20 @@ func (u *Unit) regionOf(st *State, blk *Term) *Region {
 		if cond.IsBool && !cond.B {
 			continue
 		}
-		u.assume(Implies(cond, Eq(c, q.C)))
+		alts = append(alts, alt{cond, q.C})
 		st.edges[blk.S] = append(st.edges[blk.S], Edge{Other: k, Cond: cond})
 		st.edges[k] = append(st.edges[k], Edge{Other: blk.S, Cond: cond})
+	}
+	if len(alts) == 0 {
+		r.C = c
+	} else {
+		r.C = MkArr(func(i *Term) *Term {
+			v := Select(c, i)
+			for j := len(alts) - 1; j >= 0; j-- {
+				v = Ite(alts[j].cond, Select(alts[j].c, i), v)
+			}
+			return v
+		})
 	}
 	u.addRegion(st, r)
 	return r
@@ -107,12 +125,9 @@ func (u *Unit) writeBytes(st *State, fn string, blk *Term, lo, n *Term, src func
 	}
 	lo = u.name(lo, "lo")
 	hi := u.name(Add(lo, n), "hi")
-	j := Const("j", SInt)
-	in := And(Le(lo, j), Lt(j, hi))
-	val := src(j)
-	body := Ite(in, val, Select(r.C, j))
-	nc := u.defArr("C", "j", body)
-	u.setContents(st, r.Blk.S, nc)
+	oldC := r.C
+	in := func(j *Term) *Term { return And(Le(lo, j), Lt(j, hi)) }
+	u.setContents(st, r.Blk.S, MkArr(func(j *Term) *Term { return Ite(in(j), src(j), Select(oldC, j)) }))
 	for _, e := range st.edges[r.Blk.S] {
 		q := st.regions[e.Other]
 		if q == nil {
@@ -121,8 +136,8 @@ func (u *Unit) writeBytes(st *State, fn string, blk *Term, lo, n *Term, src func
 		if !q.Fresh {
 			u.frameWriteCond(st, q, e.Cond, what)
 		}
-		b2 := Ite(And(e.Cond, in), val, Select(q.C, j))
-		u.setContents(st, e.Other, u.defArr("C", "j", b2))
+		qC, cond := q.C, e.Cond
+		u.setContents(st, e.Other, MkArr(func(j *Term) *Term { return Ite(And(cond, in(j)), src(j), Select(qC, j)) }))
 	}
 }
 
@@ -164,7 +179,9 @@ func (u *Unit) sliceByte(st *State, s SliceV, i *Term) *Term {
 
 func (u *Unit) newCell(t types.Type, sym, old bool, name string) *Cell {
 	u.ncell++
-	return &Cell{ID: u.ncell, T: t, Sym: sym, Old: old, Name: name}
+	c := &Cell{ID: u.ncell, T: t, Sym: sym, Old: old, Name: name}
+	u.cellByID[c.ID] = c
+	return c
 }
 
 func (u *Unit) keyedCell(key string, t types.Type, sym, old bool) *Cell {
@@ -190,8 +207,8 @@ func (u *Unit) loadCell(st *State, c *Cell) Val {
 		return v
 	}
 	var v Val
-	if c.Sym {
-		v = u.freshVal(st, c.T, c.Name, c.Old)
+	if c.Sym || st.symCells[c.ID] {
+		v = u.freshVal(st, c.T, c.Name, c.Old && c.Sym)
 	} else {
 		v = u.zeroVal(c.T)
 	}
@@ -200,6 +217,15 @@ func (u *Unit) loadCell(st *State, c *Cell) Val {
 }
 
 func (u *Unit) storeCell(st *State, c *Cell, v Val) {
+	if l := u.symIdxCells[c.ID]; l != nil && u.specMode == 0 {
+		// store through a symbolic list position: every element may be the target
+		for key, oc := range u.cellIdx {
+			if strings.HasPrefix(key, fmt.Sprintf("list%d[", l.ID)) && oc != c {
+				delete(st.cells, oc.ID)
+				st.symCells[oc.ID] = true
+			}
+		}
+	}
 	if c.Old || (c.ID <= u.initCells && !u.inInit) {
 		st.written = true
 		if u.Cfg.FrameCheck && u.specMode == 0 {
